@@ -93,6 +93,8 @@ enum Res {
 		n_start: u32,
 		n_disturb: u32,
 		n_speed: u32,
+		/// the speed values given so far (creation value first)
+		speeds: Vec<String>,
 	},
 	Tweener {
 		handle: Option<TweenerHandle>,
@@ -331,6 +333,7 @@ fn exec(case: &[String], out: &mut Out) {
 					n_start: 0,
 					n_disturb: 0,
 					n_speed: 0,
+					speeds: vec![tok[1].to_string()],
 				});
 				out.put("ok");
 			}
@@ -397,8 +400,9 @@ fn exec(case: &[String], out: &mut Out) {
 				let v = parse_cs_value(tok[2]);
 				let (tw, spec, dur, easing) = parse_tween(tok[3], &s.res);
 				let (simple, tps0) = match &mut s.res[i] {
-					Res::Clock { n_speed, n_disturb, n_start, tps0, .. } => {
+					Res::Clock { n_speed, n_disturb, n_start, tps0, speeds, .. } => {
 						*n_speed += 1;
+						speeds.push(tok[2].to_string());
 						(*n_speed == 1 && *n_disturb == 0 && *n_start == 1, *tps0)
 					}
 					_ => panic!(),
@@ -728,13 +732,23 @@ fn oracles(s: &mut Sys, case: &[String], out: &mut Out) {
 	let rp = replay_of(case);
 	// --- clocks: exact audio time, independent of the partition; pause freezes; fraction in [0,1)
 	for (i, r) in s.res.iter().enumerate() {
-		if let Res::Clock { tps0, start_chunk, n_start, n_disturb, n_speed, .. } = r {
+		if let Res::Clock { tps0, start_chunk, n_start, n_disturb, n_speed, speeds, .. } = r {
 			let mut prev: Option<ClockInfo> = None;
 			let mut frames_since_start: u64 = 0;
+			let mut nan_reported = false;
 			for k in 0..n {
 				let it = s.chunks[k].items.get(i).copied();
 				if let Some(Item::Clock(Some(ci))) = it {
-					if !(ci.time.fraction >= 0.0 && ci.time.fraction < 1.0) {
+					if ci.time.fraction.is_nan() {
+						// not a number, and it stays so until `stop()`: report the first chunk only
+						if !nan_reported {
+							nan_reported = true;
+							out.oracle_fail(
+								"clock_time_nan",
+								format!("{} clock={} chunk={} speeds={}", rp, i, k, speeds.join(">")),
+							);
+						}
+					} else if !(ci.time.fraction >= 0.0 && ci.time.fraction < 1.0) {
 						out.oracle_fail("fraction_in_unit_interval", format!("{} clock={} chunk={}", rp, i, k));
 					}
 					if let Some(p) = prev {
